@@ -82,6 +82,10 @@ def cases(tier, seed):
     # the agent is shut down while an invocation with deferred work is in progress: that work is still completed when the invocation ends
     for kind in ('span_method', 'capture_method', 'span_and_capture', 'span_line'):
         out.append({'k': 'shutdown-pending', 'kind': kind})
+        out.append({'k': 'shutdown-pending', 'kind': kind, 'how': 'installed'})
+    for kind in ('span_method', 'capture_method', 'span_and_capture'):
+        for fc in ('-1', '1'):      # 1: the only fire is spent by the first thread - the later thread opens nothing, and has nothing to complete
+            out.append({'k': 'abandoned', 'kind': kind, 'fc': fc})
     for name in ('gen_partial', 'exc_propagates', 'calls', 'recursion'):
         lo = progs.load(name)
         for fn in progs.function_names(lo.code):
@@ -238,12 +242,29 @@ def shutdown_pending(ctx, desc):
 
     def hook():
         agent.handler.shutdown()
-    fw = Forwarder({path}, agent.handler, lambda ev, fr: tr.cur.__setitem__(threading.current_thread().name, ev))
-    with rig.VirtualClock():
-        run = fw.call(ns['main'], hook)
-    store = {k: len(v) for k, v in rig.ThreadLocal._ThreadLocal__store.items()}
-    rig.ThreadLocal._ThreadLocal__store.clear()
-    label = f'{kind} on job(), the agent is shut down while job() runs'
+    if desc.get('how') == 'installed':
+        # the agent genuinely started on this thread: shutdown() called from inside job() is a shutdown on the starting thread, which
+        # puts the old trace function back at once - what is pending for job() must be completed all the same
+        from ..drive import Run
+        run = Run()
+        old = (sys.gettrace(), threading.gettrace())
+        try:
+            with rig.VirtualClock():
+                agent.handler.start()
+                try:
+                    run.result = ns['main'](hook)
+                except BaseException as e:
+                    run.exc = e
+        finally:
+            sys.settrace(old[0])
+            threading.settrace(old[1])
+    else:
+        fw = Forwarder({path}, agent.handler, lambda ev, fr: tr.cur.__setitem__(threading.current_thread().name, ev))
+        with rig.VirtualClock():
+            run = fw.call(ns['main'], hook)
+    store = rig.pending_store()
+    rig.pending_clear()
+    label = f'{kind} on job(), the agent ({desc.get("how", "forwarded")}) is shut down while job() runs'
     if run.escaped or run.exc is not None or run.result != 4:
         ctx.violation('C15/shutdown-pending/program-disturbed', f'{label}: result {run.result} exc {run.exc!r} escaped {run.escaped[:1]}', desc)
         return
@@ -258,9 +279,85 @@ def shutdown_pending(ctx, desc):
         ctx.violation(f'C15/shutdown-pending/left-in-store/{kind}', f'{label}: the pending store still holds {store} after the thread\'s work ended', desc)
 
 
+ABANDON_SRC = '''
+import sys
+def job(n, drop):
+    a = n + 1
+    if drop:
+        sys.settrace(None)      # the program switches tracing off itself (the end of trace.Trace().runfunc(), a profiler, a debugger detaching)
+    b = a * 2
+    return b
+def first():
+    return job(1, True)
+def later():
+    return [job(5, False), job(6, False)]
+'''
+
+
+def abandoned(ctx, desc):
+    """A thread opens deferred work in job() and then removes its trace function: that work cannot be completed (nobody is told when job()
+    ends). The thread ends. A later thread - given the same ident by the system - runs job() twice: it opens and completes exactly its own
+    work, with its own values; what the first thread left behind is not its business."""
+    import deep.thread_local as TL
+    kind = desc['kind']
+    ns, path = rig.load_program('c15abandon', ABANDON_SRC)
+    tr = Trace()
+    j = rig.Journal()
+    sp = rig.RecSpanProcessor(j, where=tr.where)
+    agent = rig.Agent(plugins=[sp], journal=j)
+    pushes = []
+    real_push = agent.push.push_snapshot
+    agent.push.push_snapshot = lambda snap: (pushes.append((snap, threading.current_thread().name)), real_push(snap))[1]
+    agent.install(triggers_for('c15abandon', kind, 'job', desc['fc']))
+    ctx.case()
+    ctx.nt(('abandoned', kind, desc['fc']))
+
+    class Idents:
+        def get_ident(self):
+            return 4242
+
+        def __getattr__(self, n):
+            return getattr(threading, n)
+    real_threading = TL.threading
+    TL.threading = Idents()
+    try:
+        runs = []
+        for fn in ('first', 'later'):
+            fw = Forwarder({path}, agent.handler, lambda ev, fr: tr.cur.__setitem__(threading.current_thread().name, ev))
+            with rig.VirtualClock():
+                runs.append(fw.call_thread(ns[fn]))
+            if fn == 'first':
+                n_first = (len(sp.spans), len(pushes))
+    finally:
+        TL.threading = real_threading
+    label = f'{kind} on job(): a thread switches tracing off inside job() and ends; a later thread with its ident runs job() twice'
+    if any(r.escaped for r in runs) or runs[0].result != 4 or runs[1].result != [12, 14]:
+        ctx.violation('C15/abandoned/program-disturbed', f'{label}: results {[r.result for r in runs]} escaped {[r.escaped[:1] for r in runs]}', desc)
+        return
+    spans_later = sp.spans[n_first[0]:]
+    pushes_later = pushes[n_first[1]:]
+    ctx.outcome(('abandoned', kind, tuple(s_.closed for s_ in sp.spans), len(pushes)))
+    nspan = {'span_method': 1, 'capture_method': 0, 'span_and_capture': 2}[kind]
+    if any(s_.closed for s_ in sp.spans[:n_first[0]]):
+        ctx.violation(f'C15/abandoned/work-of-an-ended-thread-completed-by-another/{kind}', f'{label}: the spans of the first thread have close counts '
+                      f'{[s_.closed for s_ in sp.spans[:n_first[0]]]} - closed by the later thread', desc)
+    elif len(spans_later) != (2 * nspan if desc['fc'] == '-1' else 0) or any(s_.closed != 1 for s_ in spans_later):
+        ctx.violation(f'C15/abandoned/later-thread-spans/{kind}', f'{label}: the later thread opened {len(spans_later)} spans, close counts {[s_.closed for s_ in spans_later]}', desc)
+    elif 'capture' in kind:
+        vals = []
+        for snap, th in pushes_later:
+            w = [w_ for w_ in snap.watches if w_.expression == 'return']
+            vals.append(snap.var_lookup[w[0].result.vid].value if w and w[0].result is not None else None)
+        if vals != (['12', '14'] if desc['fc'] == '-1' else []):
+            ctx.violation(f'C15/abandoned/later-thread-captures/{kind}', f'{label}: the later thread delivered captures with return values {vals}, its invocations returned 12 and 14 '
+                          f'({len(pushes) - len(pushes_later)} delivered before it started)', desc)
+
+
 def run_case(ctx, desc):
     if desc['k'] == 'shutdown-pending':
         return shutdown_pending(ctx, desc)
+    if desc['k'] == 'abandoned':
+        return abandoned(ctx, desc)
     if desc['k'] == 'seq':
         return seq(ctx, desc)
     if desc['k'] == 'reuse':
@@ -284,8 +381,8 @@ def near_limit(ctx, desc):
             run = run_installed(agent.handler, lo.ns['main'])
     finally:
         sys.setrecursionlimit(limit)
-    store = {k: len(v) for k, v in rig.ThreadLocal._ThreadLocal__store.items()}
-    rig.ThreadLocal._ThreadLocal__store.clear()
+    store = rig.pending_store()
+    rig.pending_clear()
     ctx.case()
     ctx.nt(('near-limit', kind, at, fc))
     counts = [s_.closed for s_ in sp.spans]
@@ -320,7 +417,7 @@ def seq(ctx, desc):
         desc = dict(desc, kind='span_pair')      # only the spans can be judged: each closed once, inside its invocation
         kind = 'span_pair'
     label = f'{prog} {kind}@{at}{"+" + str(desc["at2"]) if "at2" in desc else ""} fire_count={fc}{" delivery closed" if case.get("push_fails") else ""}'
-    store = dict(rig.ThreadLocal._ThreadLocal__store)
+    store = rig.pending_store()
     if run.escaped:
         e = run.escaped[0]
         ctx.violation(f'C15/handler-raised/{kind}/{type(e[1]).__name__}', f'{label}: handler raised {e[1]!r} at {e[2:]}', case)
@@ -475,7 +572,7 @@ def reuse(ctx, desc):
     with shims.patched((TL, 'threading', Idents())):
         trig = make_trigger(prog, kind, at, '-1')
         lo, agent, j, tr, run1 = run_program(prog, trig, thread=True)
-        store_mid = {k: len(v) for k, v in rig.ThreadLocal._ThreadLocal__store.items()}
+        store_mid = rig.pending_store()
         n1 = (len(j.events), len(tr.pushes))
         # second thread, same ident, same agent (fresh program namespace)
         lo2 = progs.load(prog)
@@ -483,7 +580,7 @@ def reuse(ctx, desc):
         fw = Forwarder({lo2.path}, agent.handler, lambda ev, fr: tr.cur.__setitem__(threading.current_thread().name, ev))
         with rig.VirtualClock():
             run2 = fw.call_thread(lo2.ns['main'])
-        store_end = {k: len(v) for k, v in rig.ThreadLocal._ThreadLocal__store.items()}
+        store_end = rig.pending_store()
     ctx.nt((prog, kind, at))
     if run1.escaped or run2.escaped:
         e = (run1.escaped or run2.escaped)[0]
@@ -556,7 +653,7 @@ def conc(ctx, desc):
         first = sched.spawn(lambda: body(1), name='worker-1')
         sched.spawn(lambda: body(2), name='worker-2')
         st = {'agent': agent, 'tr': tr, 'runs': runs, 'j': j}
-        sched.project = lambda: (len(j.events), len(tr.pushes), tuple(sorted((k, len(v)) for k, v in rig.ThreadLocal._ThreadLocal__store.items())))
+        sched.project = lambda: (len(j.events), len(tr.pushes), tuple(sorted(rig.pending_store().items())))
         return first, st
 
     def on_exec(sched, st, choices):
@@ -573,7 +670,7 @@ def conc(ctx, desc):
             if run.result != tag * 10 + 1:
                 ctx.violation('C15/conc/program-result-changed', f'worker-{tag} returned {run.result}', case)
                 return
-        store = {k: len(v) for k, v in rig.ThreadLocal._ThreadLocal__store.items()}
+        store = rig.pending_store()
         if store:
             ctx.violation('C15/conc/pending-left-at-thread-end', f'store holds {store} after both threads ended', case)
             return
